@@ -35,7 +35,7 @@ LEVEL_TEXT = ('Every single pre-emption point of the reload (P1) and of the deci
               'probe; double pre-emptions are sampled (thorough: enumerated around the boundaries where the rule store changes). '
               'Schedules at line granularity are finite per scenario, so the single-switch families are complete.')
 LEVEL_NOTE = 'trusted: the scheduler (semaphore hand-over, one runnable thread), the store log wrappers, fresh-enforcer oracle'
-PLAN = {'quick': dict(shards=16, wall=110), 'thorough': dict(shards=16, wall=520)}
+PLAN = {'quick': dict(shards=16, wall=150), 'thorough': dict(shards=16, wall=520)}
 MIN = {'evaluations': 1000, 'preemptions_inside_reload': 500, 'store_reads_logged': 5000}
 ANCHORS = ['oslo_policy.policy:Enforcer.load_rules', 'oslo_policy.policy:Enforcer._load_policy_file',
            'oslo_policy.policy:Enforcer.set_rules', 'oslo_policy.policy:Enforcer.enforce']
@@ -67,6 +67,9 @@ SCEN = {
     'undefined_name_default': dict(
         old={'policy.yaml': {'default': '@', 'a': 'role:x'}}, new={'policy.yaml': {'default': '@', 'a': 'role:y'}},
         defaults=[], probes=[['ghost', []], ['a', ['x']], ['a', ['y']]]),
+    'registered_default_overridden_in_dir': dict(
+        old={'policy.yaml': {'a': 'role:x'}, 'pd/1.yaml': {'c': 'role:y'}}, new={'policy.yaml': {'a': 'role:x', 'b': 'role:w'}},
+        defaults=[['c', 'role:z', None]], probes=[['c', ['y']], ['c', ['z']], ['a', ['x']]]),
     'default_overridden_in_dir': dict(
         old={'policy.yaml': {'default': 'role:admin', 'a': 'role:x'}, 'pd/1.yaml': {'default': '@'}},
         new={'policy.yaml': {'default': 'role:admin', 'a': 'role:y'}},
@@ -286,8 +289,19 @@ def check_plan(ctx, case):
         dep_names = {n for n, cs, dep in sc['defaults'] if dep}
         differing = {k.split('/')[0] for k in ex['new'] if ex['settled'][k] != ex['new'][k]}
         explained = all(e in defs for e in ex['sig_settled'])
-        key = ('stale-deprecated-merge-after-race' if differing and differing <= dep_names and explained
-               else 'settled-state-differs-from-fresh-enforcer')
+        from oslo_policy import _parser
+        plain_defaults = {n: str(_parser.parse_rule(cs)) for n, cs, dep in sc['defaults'] if not dep}
+        settled_defs = dict(ex['sig_settled'])
+        if differing and differing <= dep_names and explained:
+            key = 'stale-deprecated-merge-after-race'
+        elif (differing and explained and differing <= set(plain_defaults) and
+              all(settled_defs.get(n) == plain_defaults[n] for n in differing)):
+            # a decider on the half-built store saw the name missing, the reloader then applied the operator's override
+            # from a policy file, and the decider finally wrote the registered default over it: the override is lost
+            # until the next file change
+            key = 'registered-default-overwrites-override-after-race'
+        else:
+            key = 'settled-state-differs-from-fresh-enforcer'
         ctx.violation(key, case,
                       {'plan': plan, 'scenario': case['scenario'], 'settled': ex['settled'], 'fresh': ex['new']})
     return ex
@@ -333,21 +347,30 @@ def state_change_points(name, nX):
         dec(enf, p)
         del MUT[:]
         r = sched.Run({'X': lambda: dec(enf, p)}, [['EDIT'], ['X', None]], lambda: apply_new(sc, tree))
-        last = [0]
+        def state():
+            # everything a concurrent decision (or its own load step) can read: the store object and its content,
+            # which names came from files, the caches that decide whether anything is re-read
+            return (id(enf.rules), len(MUT), len(enf.rules), tuple(sorted(enf.file_rules)),
+                    tuple(sorted((k, v.get('mtime')) for k, v in enf._file_cache.items())),
+                    tuple(sorted((k, v.get('mtime')) for k, v in enf._policy_dir_mtimes.items())),
+                    str(getattr(enf.rules, 'default_rule', None)), enf._need_check_rule)
+        last = [state()]
 
         def on_line(code, line, _orig=r.on_line):
-            n = len(MUT)
-            if n != last[0]:
+            try:
+                cur = state()
+            except Exception:
+                cur = last[0]
+            if cur != last[0]:
                 marks.append(r.counts['X'])
-                last[0] = n
+                last[0] = cur
             _orig(code, line)
         r.on_line = on_line
-        prev_rules = [id(enf.rules)]
         r.run()
     finally:
         tree.cleanup()
     for m in marks:
-        for d in (-1, 0, 1, 2):
+        for d in (0, 1):
             if 1 <= m + d <= nX:
                 out.add(m + d)
     return sorted(out)
@@ -406,7 +429,7 @@ def run(ctx):
             for name in names:
                 sc = SCEN[name]
                 nX, nY0, _ = calib[name]
-                probes5 = sc['probes'] if ctx.tier == 'thorough' else sc['probes'][:2]
+                probes5 = sc['probes'] if ctx.tier == 'thorough' else sc['probes'][:1]
                 for pY in probes5:
                     kfs = post_fetch_points(sc, pY, 6 if ctx.tier == 'thorough' else 1)
                     for kf in kfs:
